@@ -23,7 +23,7 @@ ASSUMPTIONS = [
     "Extra columns are legal in SAM (tags) and VCF (samples), so more/double-column violations are not injected there.",
 ]
 REQUIRED_CLASSES = ["offending-line-empty", "non-numeric-in-all-dot-column", "malformed-float", "sign-only", "bad-marker", "bad-plus", "non-numeric", "bad-strand", "fewer-columns", "more-columns", "double-columns",
-                    "lazy", "eager", "gzip", "offender-not-in-first-chunk", "format-exception"]
+                    "lazy", "eager", "gzip", "offender-not-in-first-chunk", "format-exception", "malformed-integer-among-signed-ones"]
 BOUNDS = {"quick": "core: fasta2, fastq, bed3, bed6 with 2..3 records of width 1..2, all p, all k, 4 flag combinations; 60 sampled files for each of 9 formats",
           "thorough": "core: 2..4 records widths {1,2,5}; 1200 sampled files per format"}
 BUDGET_S = {"quick": 200, "thorough": 1500}
@@ -142,6 +142,8 @@ def classify(case):
         cl.append("offender-last")
     if v.get("all_dot_column"):
         cl.append("non-numeric-in-all-dot-column")
+    if v.get("signed_neighbours"):
+        cl.append("malformed-integer-among-signed-ones")
     if v.get("float_column"):
         cl.append("malformed-float")
     if v.get("blank"):
@@ -259,6 +261,11 @@ def sampled_case(draw, fmt, max_records, W):
             for r in case["records"]:
                 if r[4] == ".":
                     r[4] = "0"
+            if draw(st.booleans()):
+                # signed scores in the rows around the offending one (the column is then parsed by the signed route)
+                for r in case["records"]:
+                    r[4] = draw(st.sampled_from(["-4", "+3", "-12", "7", "+100", "-1", "0"]))
+                v["signed_neighbours"] = True
     case["violation"] = v
     data, adm, offset = malformed_bytes(case)
     size = len(data)
